@@ -258,6 +258,44 @@ func NewSwitchStorage(n int) (*SwitchStorage, func(), error) {
 	return sw, func() { _ = os.RemoveAll(tmp) }, nil
 }
 
+// ToggleCtx is a context the harness can really cancel (every later ctx.Done()/Err() says so) and revive again for its
+// own inspections afterwards.
+type ToggleCtx struct {
+	mu   sync.Mutex
+	done chan struct{}
+	err  error
+}
+
+func NewToggleCtx() *ToggleCtx { return &ToggleCtx{done: make(chan struct{})} }
+func (t *ToggleCtx) Deadline() (time.Time, bool) { return time.Time{}, false }
+func (t *ToggleCtx) Value(any) any              { return nil }
+func (t *ToggleCtx) Done() <-chan struct{} {
+	t.mu.Lock()
+	defer t.mu.Unlock()
+	return t.done
+}
+func (t *ToggleCtx) Err() error {
+	t.mu.Lock()
+	defer t.mu.Unlock()
+	return t.err
+}
+func (t *ToggleCtx) Cancel() {
+	t.mu.Lock()
+	defer t.mu.Unlock()
+	if t.err == nil {
+		t.err = context.Canceled
+		close(t.done)
+	}
+}
+func (t *ToggleCtx) Revive() {
+	t.mu.Lock()
+	defer t.mu.Unlock()
+	if t.err != nil {
+		t.err = nil
+		t.done = make(chan struct{})
+	}
+}
+
 type Config struct {
 	Seed           int64
 	CertKeys       int
